@@ -486,6 +486,8 @@ pub fn run(cfg: &Cfg, rep: &mut Report, spec: &Spec) {
         );
         rep.violation(&key, &format!("[{which2}] {detail2} :: {}", truncate(&small_a[crate::ast::PRELUDE.len()..], 500)), "diff", &payload);
     }
+    // the per-process directory of import files (C06) is empty by now
+    let _ = std::fs::remove_dir(format!("/verif/target/scratch/imp-{}", std::process::id()));
 }
 
 pub fn replay(cfg: &Cfg, payload: &str, rep: &mut Report, spec: &Spec) {
